@@ -15,6 +15,7 @@ XF = ("voronoi/generator.rs",)
 def arr3(name): return Arr([real("%s_%d" % (name, i)) for i in range(3)])
 
 
+@isolated('distance')
 def distance_obligations(prefix):
     obs, fns = [], []
     # (1) point distance of a shifted query: |point + shift - loc|^2
@@ -45,6 +46,7 @@ def distance_obligations(prefix):
     return obs, fns
 
 
+@isolated('heap')
 def heap_obligations(prefix):
     """The comparator makes std's max-heap a min-heap on distance; extend_heap keys every child with its own distance under the SAME shift;
     next() expands a parent with the parent's shift and returns a leaf with the distance and shift it was pushed with."""
